@@ -141,6 +141,13 @@ Fixpoint c28_walk (keyed : bool) (g : ghost) (l : list (ev * out)) : list N :=
     if c28_check keyed g (e_op e) (o_imm o) then rest else c28_class keyed g (e_op e) :: rest
   end.
 
+(* the specification-level state after a trace *)
+Fixpoint c28_ghost (keyed : bool) (g : ghost) (l : list (ev * out)) : ghost :=
+  match l with
+  | [] => g
+  | (e, o) :: t => c28_ghost keyed (c28_next keyed g (e_op e) (o_imm o)) t
+  end.
+
 Definition ghost0 (c : W_case) : ghost := mkG (wc_enabled0 c) [] [] [].
 
 (* writer half of C19 on the observations: a refused call stores nothing.  Every successful
